@@ -1,7 +1,12 @@
 package checks
 
 import (
+	"encoding/json"
 	"fmt"
+	"os"
+	"os/exec"
+	"path/filepath"
+	"strconv"
 	"strings"
 	"sync"
 
@@ -58,17 +63,103 @@ func C15(tier string) int {
 	for _, o := range alpha {
 		names = append(names, o.String())
 	}
-	run.Set("programs", programs)
-	run.Set("evaluations", programs)
-	run.Set("states", programs) // hidden wrapper state is not observable: every program end is counted as one state, no merging
-	run.Set("transitions", ops)
-	run.Set("traces_validated_against_impl", programs)
-	run.Set("distinct_nontrivial", programs)
+	// ---- concurrent part: exhaustive schedule exploration on the instrumented wrapper ----
+	schedExec, schedPoints, schedOutcomes := int64(0), int64(0), 0
+	var schedDesc []map[string]interface{}
+	bound := 2
+	if tier == "thorough" {
+		bound = 3
+	}
+	if bin := os.Getenv("VSCHED_BIN"); bin != "" {
+		nsc := 18
+		if outb, err := exec.Command(bin, "count", "x").Output(); err == nil {
+			if v, e := strconv.Atoi(strings.TrimSpace(string(outb))); e == nil {
+				nsc = v
+			}
+		}
+		dir := filepath.Join(ev.Root, ".work", fmt.Sprintf("sched-%d", os.Getpid()))
+		os.MkdirAll(dir, 0o755)
+		defer os.RemoveAll(dir)
+		type so struct {
+			Scenarios []struct {
+				Name       string `json:"name"`
+				Executions int64  `json:"executions"`
+				Points     int64  `json:"points"`
+				Outcomes   int    `json:"distinct_outcomes"`
+				Bound      int    `json:"preemption_bound_completed"`
+			} `json:"scenarios"`
+			Violations []struct {
+				Scenario    string `json:"scenario"`
+				Kind        string `json:"kind"`
+				Schedule    []int  `json:"schedule"`
+				History     string `json:"history"`
+				Preemptions int    `json:"preemptions"`
+			} `json:"violations"`
+			Executions int64 `json:"executions"`
+		}
+		var wg sync.WaitGroup
+		sem := make(chan struct{}, 16)
+		for i := 0; i < nsc; i++ {
+			wg.Add(1)
+			sem <- struct{}{}
+			go func(i int) {
+				defer wg.Done()
+				defer func() { <-sem }()
+				of := filepath.Join(dir, fmt.Sprintf("s%d.json", i))
+				cmd := exec.Command(bin, "explore", of, strconv.Itoa(bound), strconv.Itoa(i))
+				cmd.Env = append(os.Environ(), "GOMAXPROCS=1")
+				outb, err := cmd.CombinedOutput()
+				bz, rerr := os.ReadFile(of)
+				mu.Lock()
+				defer mu.Unlock()
+				if rerr != nil {
+					run.Report("C15|sched|explorer-failed", fmt.Sprintf("schedule explorer for scenario %d failed: %v: %.300s", i, err, outb), nil)
+					return
+				}
+				var o so
+				json.Unmarshal(bz, &o)
+				for _, sc := range o.Scenarios {
+					schedExec += sc.Executions
+					schedPoints += sc.Points
+					schedOutcomes += sc.Outcomes
+					schedDesc = append(schedDesc, map[string]interface{}{"scenario": sc.Name, "executions": sc.Executions, "distinct_outcomes": sc.Outcomes, "preemption_bound": sc.Bound})
+				}
+				for _, v := range o.Violations {
+					kind := v.Kind
+					if strings.HasPrefix(kind, "error:") {
+						kind = "error"
+					}
+					run.Report("C15|sched|"+strings.Fields(kind)[0]+"|"+strings.Split(v.Scenario, "/")[0], fmt.Sprintf("scenario %s, schedule %v (%d preemptions): %s; history: %s", v.Scenario, v.Schedule, v.Preemptions, v.Kind, v.History), v)
+				}
+			}(i)
+		}
+		wg.Wait()
+		// free-running -race pass over the same bodies (race DETECTION, not exploration)
+		if rbin := os.Getenv("VSCHED_RACE_BIN"); rbin != "" {
+			iters := "300"
+			if tier == "thorough" {
+				iters = "3000"
+			}
+			outb, err := exec.Command(rbin, "race", iters).CombinedOutput()
+			if err != nil || strings.Contains(string(outb), "DATA RACE") {
+				run.Report("C15|race-detector", fmt.Sprintf("free-running -race run of the concurrent bodies reported: %v %.600s", err, outb), nil)
+			}
+			run.Set("race_detector_pass", "ran "+iters+" iterations of every scenario body on real goroutines under -race")
+		}
+	} else {
+		run.Set("sched_skipped", "VSCHED_BIN not set (run through ./vrun)")
+	}
+	run.Set("sched_executions", schedExec)
+	run.Set("sched_points", schedPoints)
+	run.Set("sched_distinct_outcomes", schedOutcomes)
+	run.Set("sched_scenarios", schedDesc)
+	run.Set("sched_preemption_bound", bound)
 	run.Set("alphabet", names)
 	run.Set("jobs", desc)
 	run.Set("rule", "every contract-respecting program of exactly L operations over the alphabet (every prefix is checked while it runs), on a stack of up to 3 nested cachekv wrappers over {MemDB adapter, IAVL store, prefix store} preloaded with a,b; each program is executed on the real stores and on an overlay-of-maps model; every return value, every iteration sequence, the parent content and the final view of every level are compared")
 	run.Sample(map[string]interface{}{"parent": "memdb", "program": []string{"set(\"a\\x00\",\"x\")", "open[0](\"\",\"\",asc)", "del(\"a\")", "close[0]"}})
-	run.Assume("usage contracts: only the innermost wrapper is used while it has a child; Write/CacheWrap/discard are not issued while one of the wrapper's iterators is open; buffers passed to Set are not reused by the caller (tm-db contract)",
+	run.Assume("concurrent part: store/cachekv/store.go of the working tree is instrumented at check time (sync -> controlled scheduler shim, a yield before every statement of every Store method); every interleaving of 18 scenarios (2-3 goroutines x 1-2 operations on colliding keys, parent preloaded/empty) with at most the stated number of preemptions is executed; each history is checked for linearizability against a map (porcupine), parent untouched before Write, Write applying the final view, no deadlock; the first 40 schedules of every scenario are replayed and must observe the same history; data-race freedom is decided by a separate free-running -race pass (detection, not exploration)",
+		"usage contracts: only the innermost wrapper is used while it has a child; Write/CacheWrap/discard are not issued while one of the wrapper's iterators is open; buffers passed to Set are not reused by the caller (tm-db contract)",
 		"open iterators with interleaved writes are judged by a weak-consistency oracle (sorted, no duplicates, in domain, values the key had during the iterator's life, nothing skipped that was present throughout)",
 		"no state merging: cachekv's cache/unsortedCache/sortedCache are hidden state")
 	return run.Finish()
